@@ -1,6 +1,7 @@
 import Capella.Lemmas.Svg
 import Capella.Lemmas.SvgDefsUnique
 import Capella.Lemmas.SvgRows
+import Capella.Lemmas.SvgTotal
 import Capella.Lemmas.Wrap
 import Capella.Lemmas.WrapChars
 import Capella.Lemmas.SvgText
@@ -322,6 +323,99 @@ theorem generate_id_injective (n n' : List Char) (hs hs' : List (List Char)) (hn
 /-- the colour strings that reach `_generate_id` are `_`-free: `RGB.fromcss(v).tohex()` of a hex-valued `v` -/
 theorem generate_id_colours_clean (v : Val) (h : List Char) (hv : v.hexOK = true) (hh : hexOf v = .ok h) : '_' ∉ h :=
   fun hin => (hexOf_clean hv hh '_' hin).2 rfl
+
+
+/-- **Rendering any diagram of rule-abiding elements succeeds, and the document is complete and self-contained** (end to end,
+on the real drawing state): for every diagram — any diagram class, any number of elements of any kind and style class, hidden or
+not, with any labels — whose visible elements carry only overrides that obey `overridePlainOK` (hex colour values), rendering
+either raises the one known `rx`/`ry` rejection or yields a document in which every reference of a group is the id of
+exactly one child of `<defs>`, every reference from inside a symbol fragment is defined, the children of `<defs>` have pairwise
+different ids, and there is exactly one group per visible element, in order, with its id and class. -/
+theorem render_total_and_sound (dg : Diagram)
+    (hov : ∀ e ∈ dg.elems, e.hidden = false →
+      e.obj.style.all (overridePlainOK markerRows (isEdgeType e.obj.kind)) = true ∧
+      (e.obj.style = [] ∨ isInfixOfB "symbol".toList ((styleType e.obj.kind ++ '.' :: e.obj.cls).map lowerChar) = false))
+    (hhex : ∀ e ∈ dg.elems, ∀ p ∈ e.obj.style, p.2.hexOK = true) :
+    renderS tables dg = .error .invalidAttribute ∨
+    ∃ doc, renderS tables dg = .ok doc ∧
+      (∀ r ∈ doc.outerRefs, (doc.defs.map (·.id)).count r = 1) ∧
+      (∀ r ∈ doc.refs, r ∈ doc.defs.flatMap (·.ids)) ∧
+      (doc.defs.map (·.id)).Nodup ∧
+      doc.groups = ((dg.elems.filter (fun e => !e.hidden)).map fun e =>
+        ({ id := e.obj.id, cls := groupClass e.obj.kind e.obj.cls e.obj.context } : Group)) := by
+  rcases renderS_total tables_plain dg (fun e he hv => ⟨overridePlainOK_ok (hov e he hv).1, (hov e he hv).2⟩) with ⟨doc, hd⟩ | he
+  · right
+    obtain ⟨hn, _, hone⟩ := defs_deployed_once_generated dg hhex doc hd
+    refine ⟨doc, hd, hone, (render_refs_defined tables tables_wf.1 dg doc hd).2, hn, ?_⟩
+    -- the groups: `drawObjectS` adds the same group as `draw_object`
+    unfold renderS at hd
+    simp only [bind, Except.bind] at hd
+    cases hda : drawAllS tables dg.cls (encodeDiagram dg).2 {} with
+    | error e => simp [hda] at hd
+    | ok p =>
+      obtain ⟨drawn, st⟩ := p
+      simp only [hda, pure, Except.pure, Except.ok.injEq] at hd
+      subst hd
+      simp only
+      have hg : ∀ (os : List Obj) (st st' : DState) (ds : List DrawnS), drawAllS tables dg.cls os st = .ok (ds, st') →
+          ds.map (·.group) = os.map fun o => ({ id := o.id, cls := groupClass o.kind o.cls o.context } : Group) := by
+        intro os
+        induction os with
+        | nil => intro st st' ds h; simp only [drawAllS, Except.ok.injEq, Prod.mk.injEq] at h; rw [← h.1]; rfl
+        | cons o os ih =>
+          intro st st' ds h
+          simp only [drawAllS, bind, Except.bind] at h
+          cases h1 : drawObjectS tables dg.cls o st with
+          | error e => rw [h1] at h; cases h
+          | ok p1 =>
+            obtain ⟨d, st1⟩ := p1
+            rw [h1] at h
+            simp only at h
+            cases h2 : drawAllS tables dg.cls os st1 with
+            | error e => rw [h2] at h; cases h
+            | ok p2 =>
+              obtain ⟨ds', st2⟩ := p2
+              rw [h2] at h
+              simp only [pure, Except.pure, Except.ok.injEq, Prod.mk.injEq] at h
+              rw [← h.1]
+              simp only [List.map_cons, ih _ _ _ h2]
+              congr 1
+              -- the group of one object
+              unfold drawObjectS at h1
+              simp only [bind, Except.bind] at h1
+              cases hgs : getStyle tables.styles dg.cls (styleType o.kind ++ '.' :: o.cls) with
+              | error e => rw [hgs] at h1; cases h1
+              | ok D =>
+                rw [hgs] at h1
+                simp only at h1
+                split at h1
+                · cases h1
+                · cases a1 : styleRefs tables.styles (prepare tables dg.cls o D).objStyle with
+                  | error e => rw [a1] at h1; cases h1
+                  | ok x1 =>
+                    rw [a1] at h1; simp only at h1
+                    cases a2 : textRefsOf tables (prepare tables dg.cls o D) with
+                    | error e => rw [a2] at h1; cases h1
+                    | ok x2 =>
+                      rw [a2] at h1; simp only at h1
+                      cases a3 : useLoop tables.symbols (prepare tables dg.cls o D).uses st with
+                      | error e => rw [a3] at h1; cases h1
+                      | ok x3 =>
+                        rw [a3] at h1; simp only at h1
+                        cases a4 : deployDefs tables.styles tables.markers (prepare tables dg.cls o D).objStyle x3 with
+                        | error e => rw [a4] at h1; cases h1
+                        | ok x4 =>
+                          rw [a4] at h1; simp only at h1
+                          cases a5 : deployDefs tables.styles tables.markers (prepare tables dg.cls o D).textStyle x4 with
+                          | error e => rw [a5] at h1; cases h1
+                          | ok x5 =>
+                            rw [a5] at h1
+                            simp only [pure, Except.pure, Except.ok.injEq, Prod.mk.injEq] at h1
+                            rw [← h1.1]
+      rw [hg _ _ _ _ hda]
+      simp only [encodeDiagram, List.map_map]
+      rfl
+  · exact .inl he
 
 /-! #### ids defined *inside* symbol fragments: not unique
 
@@ -655,6 +749,14 @@ example : (renderS tables historyExample).map (fun d => d.defs.map (·.id)) =
     .ok ["DiamondMark_4A4A97".toList, "StickFigureSymbol".toList, "LogicalHumanActorSymbol".toList,
          "CustomGradient_C3E6FF_96B1DA".toList, "CustomGradient_DAFDFF_C6E6FF".toList] := by
   decide +kernel
+
+-- the hypotheses of `render_total_and_sound` hold for that history (decidable), so its conclusion applies
+example : ∃ doc, renderS tables historyExample = .ok doc ∧ (doc.defs.map (·.id)).Nodup ∧
+    ∀ r ∈ doc.outerRefs, (doc.defs.map (·.id)).count r = 1 := by
+  rcases render_total_and_sound historyExample (by decide +kernel) (by decide +kernel) with h | ⟨doc, hd, hone, _, hn, _⟩
+  · have hv : (renderS tables historyExample).map (fun d => d.defs.length) = .ok 5 := by decide +kernel
+    rw [h] at hv; cases hv
+  · exact ⟨doc, hd, hn, hone⟩
 
 -- a label of five words in a box two lines high (extent: 1 per character wide, 1 high): two lines, the second cut and marked
 example : renderLabel (· = ' ') (fun s => (s.length : Rat)) (fun _ => 1) ["ab cd efg hi jk".toList] 6 2 0 0
